@@ -2,3 +2,8 @@ claim("C10", "static analysis: write-order dominance + failure-injection SCCP + 
   "Decides, for every CFG path of certstore Put/CreateStore/OpenOrCreateStore/DeleteAll/maybeContinueDelete/open, the write-order, error-guarding, tombstone-protocol and resume-provenance rules that crash atomicity needs (C10.R1–R6). These are necessary conditions visible in the code shape; the behaviour after a real crash is not executed or modelled.",
   "Assumes a single datastore write is atomic/durable (AS1); trusts go/types, go/ssa and the rule tables in checker/c10.go.",
   "DESIGN.md §4 C10")
+
+claim("C16", "static analysis: linear-form range arithmetic + guard dominance (SCCP) on certexchange server/client/poller",
+  "Decides for every path and every integer input the server's range rules as linear forms (start = First, count ≤ min(Limit,256), end ≤ Pending−1, no unsigned wrap), the header/power-table serving guards, the client's sequence/limit/decode guards before delivery, and the poller's validate-then-store and advance-to-validated-output rules (C16.R1–R4). Structural necessary conditions; byte-for-byte equality of served certificates is not decided.",
+  "Linear forms ignore integer width except for the separate no-wrap obligations; a field read twice without an intervening store is taken to be the same value; trusts go/types, go/ssa, checker/lin.go and checker/c16.go.",
+  "DESIGN.md §4 C16")
